@@ -14,6 +14,7 @@ pub use dds::*;
 pub mod dds_async;
 
 /// Contains the DCPS logic which provides the behavior to the DDS API
+#[cfg_attr(dust_dds_verif, doc(hidden))]
 mod dcps;
 
 pub use dcps::{builtin_topics, infrastructure};
@@ -41,6 +42,10 @@ pub mod std_runtime;
 
 /// Contains the DDS XTypes standard types and methods definitions
 pub mod xtypes;
+
+#[cfg(dust_dds_verif)]
+#[doc(hidden)]
+pub mod verif;
 
 // To enable using our own derive macros to allow the name dust_dds:: to be used
 extern crate self as dust_dds;
